@@ -78,8 +78,11 @@ MAP
     CLASS
       NAME "c"
     END
+    # left over: belongs to no node
   END
-END"""
+  # another one before the closing END
+END
+# and one after the end"""
 TEXT = {text!r}
 '''
 
@@ -101,8 +104,12 @@ if h3:
     DIRTY.P.comments_dict = {{stale: "# stale"}}
 if h1:
     M.transform(DIRTY_PLAIN.parse(T_OTHER))
-got_c = tsp.plain(MC.transform(DIRTY.parse(TEXT, holes, None, sub)))
-got_cl = PP._format(MC.transform(DIRTY.parse(TEXT, holes, None, sub)))
+d_first = MC.transform(DIRTY.parse(TEXT, holes, None, sub))      # the very next parse on the dirtied Parser
+got_cl = PP._format(d_first)                                       # printed with its comments: a leaked comment is visible here
+got_c = tsp.plain(d_first)
+again = PP._format(MC.transform(DIRTY.parse(TEXT, holes, None, sub)))
+if again != got_cl:
+    return False                                                   # and a repeat gives the same again
 got_p = M.transform(DIRTY_PLAIN.parse(TEXT, holes))
 fresh_cl = PP._format(MapfileToDict(include_comments=True).transform(PIPEC.parse(TEXT, holes, None, sub)))
 fresh_p = MapfileToDict().transform(PIPE.parse(TEXT, holes))
